@@ -473,6 +473,98 @@ def s7_open():
                for f in common.load_findings()['findings'])
 
 
+BIG = {'quick': [257, 300, 1000], 'thorough': [257, 300, 1000, 5000, 65537, 70000]}
+
+
+def _flat(x, acc):
+    if isinstance(x, (list, tuple)):
+        for y in x:
+            _flat(y, acc)
+    else:
+        acc.append(int(x))
+
+
+def _big_job(job):
+    """One real execution at a large size, a real numpy generator, 2 epochs."""
+    import warnings
+    import numpy as np
+    import lazy_dataset
+    form, n, b, seed = job
+    rec = {'form': form, 'n': n, 'b': b, 'size': n, 'epochs': [], 'exc': 'none', 'seed': seed}
+    rng = np.random.RandomState(seed)
+    try:
+        with warnings.catch_warnings():
+            warnings.simplefilter('ignore')
+            src = lazy_dataset.new(list(range(n)))
+            if form == 'reshuffle':
+                ds = src.shuffle(True, rng=rng)
+            elif form == 'batch-reshuffle':
+                ds = src.batch(b).shuffle(True, rng=rng)
+            elif form == 'reshuffle-batch':
+                ds = src.shuffle(True, rng=rng).batch(b)
+            elif form == 'batch-once':
+                ds = src.batch(b).shuffle(False, rng=rng)
+            elif form == 'once':
+                ds = src.shuffle(False, rng=rng)
+            elif form == 'frozen':
+                ds = src.batch(b).shuffle(True, rng=rng).copy(freeze=True)
+            elif form == 'local':
+                ds = src.shuffle(True, rng=rng, buffer_size=max(2, n // 3))
+            elif form == 'tile':
+                np.random.seed(seed)
+                ds = src.tile(2, shuffle=True)
+                rec['size'] = 2 * n
+            elif form == 'choice':
+                rec['size'] = n // 2
+                ds = src.random_choice(n // 2, replace=False, rng_state=rng)
+            else:
+                raise ValueError(form)
+            for _ in range(2):
+                acc = []
+                for x in ds:
+                    _flat(x, acc)
+                rec['epochs'].append(acc)
+    except BaseException as e:      # noqa: the class is the observation
+        rec['exc'] = type(e).__name__
+    return rec
+
+
+def big_sizes(tier, res):
+    """C12 above 2^8 / 2^16 examples (real generators, code -> spec only)."""
+    jobs = []
+    for n in BIG[tier]:
+        for form in ('reshuffle', 'batch-reshuffle', 'reshuffle-batch', 'batch-once', 'once',
+                     'frozen', 'local', 'tile', 'choice'):
+            for b in ((4, 5) if 'batch' in form or form == 'frozen' else (0,)):
+                jobs.append((form, n, b, common.seed() + n + b))
+    with mp.get_context('fork').Pool(min(common.NCPU, 8)) as pool:
+        recs = pool.map_async(_big_job, jobs, chunksize=1).get(1800)
+    for i, r in enumerate(recs):
+        r['id'] = i + 1
+    try:
+        verdicts, st = validate_records(
+            [{k: r[k] for k in ('id', 'form', 'n', 'b', 'size', 'epochs', 'exc')} for r in recs],
+            module='RandomBigTrace.tla', cfg='RandomBigTrace.cfg', chunk=8)
+    except tlc.TlcError as e:
+        res.machinery_errors.append(str(e))
+        return
+    res.add_tlc(st)
+    bad = 0
+    for r in recs:
+        status, clause = verdicts[r['id']]['C12']
+        if status == 'viol':
+            bad += 1
+            res.violation(f'{clause}: {r["form"]} over {r["n"]} examples'
+                          + (f', batch size {r["b"]}' if r['b'] else '') + f', seed {r["seed"]}',
+                          {'family': 'random-big', 'job': [r['form'], r['n'], r['b'], r['seed']],
+                           'exc': r['exc'], 'epoch_sizes': [len(e) for e in r['epochs']],
+                           'verdict': [status, clause]})
+    res.coverage['large_sizes'] = {'executions': len(recs), 'sizes': BIG[tier], 'violating': bad,
+                                   'forms': sorted({r['form'] for r in recs}),
+                                   'rule': 'real numpy generator, 2 epochs, TLC (RandomBigTrace.tla) '
+                                           'checks that every epoch holds every example exactly once'}
+
+
 def run(prop, tier):
     assert prop == 'C12'
     res = Result(prop, tier)
@@ -592,6 +684,7 @@ def run(prop, tier):
     res.coverage['executions_by_origin'] = by_how
     res.coverage['known_finding_hits'] = {'S7': known} if known else {}
     res.coverage['violations_without_replay_file'] = suppressed
+    big_sizes(tier, res)
     res.coverage['rule'] = (
         'one evaluation = one real execution: a dataset object built once (kind, n, buffer '
         'size, build-time rng answers), 1-3 real iterators over that ONE object, a sequence of '
@@ -614,6 +707,13 @@ def run(prop, tier):
 def replay(prop, path):
     with open(path) as f:
         rp = json.load(f)
+    if rp.get('family') == 'random-big':
+        rec = _big_job(tuple(rp['job']))
+        rec['id'] = 1
+        v, _ = validate_records([{k: rec[k] for k in ('id', 'form', 'n', 'b', 'size', 'epochs', 'exc')}],
+                                module='RandomBigTrace.tla', cfg='RandomBigTrace.cfg')
+        print(rp['job'], 'epoch sizes', [len(e) for e in rec['epochs']], rec['exc'], v[1]['C12'])
+        return 1 if v[1]['C12'][0] == 'viol' else 0
     r = rp['record']
     how = r.get('how', '')
     try:
